@@ -99,6 +99,45 @@ def self_reads(d):
     return []
 
 
+def recognise(prop):
+    """Structural reading of a shortcut property's source, for the two simplest shapes -- so that a NEW alias (or a moved /
+    re-documented one) is translated from what the code says instead of failing closed on an unknown hash:
+        @property def n(self): return self.a      -> SCAlias a
+        @property def n(self): return self.a.b    -> SCVia a b
+    Anything else -> None (the hash table above decides, or the property is reported as not understood).  For the known
+    hashes the two readings are compared on every run (a self-check of this recogniser)."""
+    import ast, inspect, textwrap
+    try:
+        t = ast.parse(textwrap.dedent(inspect.getsource(prop.fget)))
+    except (TypeError, OSError, SyntaxError):
+        return None
+    if len(t.body) != 1 or not isinstance(t.body[0], ast.FunctionDef):
+        return None
+    f = t.body[0]
+    decs = f.decorator_list
+    if not (len(decs) == 1 and isinstance(decs[0], ast.Name) and decs[0].id == "property"):
+        return None
+    a = f.args
+    if a.posonlyargs or a.kwonlyargs or a.vararg or a.kwarg or a.defaults or len(a.args) != 1 or a.args[0].arg != "self":
+        return None
+    body = list(f.body)
+    if body and isinstance(body[0], ast.Expr) and isinstance(body[0].value, ast.Constant) and isinstance(body[0].value.value, str):
+        body = body[1:]
+    if len(body) != 1 or not isinstance(body[0], ast.Return) or body[0].value is None:
+        return None
+    e, path = body[0].value, []
+    while isinstance(e, ast.Attribute) and isinstance(e.ctx, ast.Load):
+        path.append(e.attr); e = e.value
+    if not (isinstance(e, ast.Name) and e.id == "self"):
+        return None
+    path.reverse()
+    if len(path) == 1:
+        return (f.name, ("SCAlias", path[0]))
+    if len(path) == 2:
+        return (f.name, ("SCVia", path[0], path[1]))
+    return None
+
+
 def static_lookup(cls, name):
     for b in cls.__mro__:
         if name in b.__dict__:
@@ -150,6 +189,11 @@ def extract():
             if type(v) is property:
                 hh = TS.ast_hash(v)
                 ent = SHORTCUTS.get(hh)
+                rec = recognise(v)
+                if ent is not None and rec is not None and (rec[0] != ent[0] or tuple(rec[1]) != tuple(ent[1])):
+                    problems.append("%s.%s: structural reading %r differs from the table entry %r" % (c.__name__, n, rec, ent))
+                if ent is None:
+                    ent = rec
                 if ent is None or ent[0] != n or v.fset is not None or v.fdel is not None:
                     problems.append("%s.%s: property with unknown body (hash %s, defined in %s)" % (c.__name__, n, hh, owner.__name__))
                     rows.append((n, "KOther"))
